@@ -71,6 +71,15 @@ def election(seed):
             f = 1 + 0.6 * bnm + (0.3 if i == 5 else 0.0)
             two = u["r_dem"] + u["r_gop"]
             u["r_turnout"] = max(two, int(u["b_turnout"] * f))
+    # state BB is a toss-up (margins of its reporting units within a percent of zero), so that its bootstrapped outcome is
+    # sensitive to anything that disturbs the model's stored draws between two summary requests
+    for i, u in enumerate(u for u in units if u["postal"] == "BB" and u["pev"] >= 100):
+        two = u["r_dem"] + u["r_gop"]
+        u["r_dem"] = two // 2 + (i % 3 - 1) * max(1, two // 150)
+        u["r_gop"] = two - u["r_dem"]
+        bt = u["b_dem"] + u["b_gop"]
+        u["b_dem"] = bt // 2 + ((i + 1) % 3 - 1) * max(1, bt // 150)
+        u["b_gop"] = bt - u["b_dem"]
     units.append(E.make_probe(seed, 0, "nonrep_partial", "pop0"))
     units.append(E.make_probe(seed, 1, "unexpected", "pop1"))
     # a reporting unit that sits between the eligibility rules under the two weightings: its two-party vote is 56% of its
